@@ -7,9 +7,12 @@ B == BOOLEAN
 Item(k, id, form, doc, trail, gen, named, marked, lookalike, nmeth, short, oneline, mdoc, after, gap) ==
   [k |-> k, id |-> id, form |-> form, doc |-> doc, trail |-> trail, gen |-> gen, named |-> named, marked |-> marked,
    lookalike |-> lookalike, nmeth |-> nmeth, short |-> short, oneline |-> oneline, mdoc |-> mdoc, after |-> after, gap |-> gap,
-   long |-> FALSE, nm |-> "std"]
+   long |-> FALSE, nm |-> "std", mention |-> FALSE]
 \* long: the first line of the item's comment is much longer than the directive line below it
 WithLong(it) == [it EXCEPT !.long = TRUE]
+\* mention: a prose line of the item's doc comment (for a converter interface: of each method's doc comment) names a
+\* directive in the middle of the line ("... see //go:generate in the manual"); it is prose and stays where it is
+WithMention(it, m) == [it EXCEPT !.mention = m]
 \* nm: how a marked converter interface is called - "std"; "prefix": the name of the file's other converter interface
 \* followed by more letters (ConvergenStorage next to Convergen); "long": forty characters; "alias": the standard name, declared in the alias
 \* form type X = interface {...}; "recvsame": the standard
@@ -70,19 +73,22 @@ InitAccept ==
   /\ Rest
 
 \* ---- C11: declarations and comments around a converter interface x file-level attributes
-DeclAttrs == {<<FALSE, FALSE, FALSE>>, <<TRUE, FALSE, FALSE>>, <<TRUE, TRUE, FALSE>>, <<TRUE, FALSE, TRUE>>, <<FALSE, TRUE, FALSE>>, <<FALSE, FALSE, TRUE>>}
+DeclAttrs == {<<FALSE, FALSE, FALSE, FALSE>>, <<TRUE, FALSE, FALSE, FALSE>>, <<TRUE, TRUE, FALSE, FALSE>>, <<TRUE, FALSE, TRUE, FALSE>>, <<FALSE, TRUE, FALSE, FALSE>>, <<FALSE, FALSE, TRUE, FALSE>>,
+              <<TRUE, FALSE, FALSE, TRUE>>, <<TRUE, FALSE, TRUE, TRUE>>}      \* doc, trailing comment, go:generate line, mention
 Forms == {"var", "func", "type", "const", "varblock", "method", "blockvar"}
 \* an ordinary interface whose doc comment has lines that begin with a colon (they are prose, not notations of a converter)
 Look(id) == Intf(id, FALSE, FALSE, TRUE, TRUE, FALSE, 1, FALSE, FALSE, FALSE, FALSE, FALSE, 1)
 InitCarry ==
   /\ \E named \in B, form1 \in Forms, a1 \in DeclAttrs, mid \in {"none", "float", "floatgen"}, long1 \in B, second \in B, pkgdoc \in B, after \in B,
         build \in {"gobuild", "plusbuild", "both"}, imports \in {"none", "used", "mixed"} :
-       \E post \in {<< >>, <<Look("lk")>>} \cup {<<Decl("post", f, a[1], a[2], a[3])>> : f \in {"func", "type", "varblock"}, a \in DeclAttrs} :
+       \E post \in {<< >>, <<Look("lk")>>} \cup {<<WithMention(Decl("post", f, a[1], a[2], a[3]), a[4])>> : f \in {"func", "type", "varblock"}, a \in DeclAttrs} :
          /\ (long1 => a1[1] /\ a1[3] /\ form1 \in {"var", "func", "type"})
          /\ (second => mid = "none" /\ ~long1 /\ build = "gobuild" /\ imports = "none")      \* a long doc line matters above a go:generate line only
-         /\ layout = Lay(<<IF long1 THEN WithLong(Decl("pre", form1, a1[1], a1[2], a1[3])) ELSE Decl("pre", form1, a1[1], a1[2], a1[3])>>
+         /\ (long1 => ~a1[4])
+         /\ layout = Lay(<<IF long1 THEN WithLong(Decl("pre", form1, a1[1], a1[2], a1[3])) ELSE WithMention(Decl("pre", form1, a1[1], a1[2], a1[3]), a1[4])>>
                       \o (CASE mid = "float" -> <<Float("fl")>> [] mid = "floatgen" -> <<FloatGen("fl")>> [] OTHER -> << >>)
-                      \o <<ConvShape("c1", named, ~named, FALSE, 2, FALSE, FALSE, named, after, after, 1)>>
+                      \* method docs (present when the interface is called Convergen) mention a directive when the declaration above does
+                      \o <<WithMention(ConvShape("c1", named, ~named, FALSE, 2, FALSE, FALSE, named, after, after, 1), named /\ a1[4])>>
                       \o post
                       \* a second converter interface further down whose name sorts BEFORE the first one's: blocks are
                       \* generated in name order but belong where their interfaces stood
